@@ -186,6 +186,9 @@ type simFetchBlock struct {
 	start   int64
 	aborted []simAborted
 	raw     []byte
+	// preferred read replica announced to the consumer (fetch v11+); -1 = none
+	preferred int32
+	hasPref   bool
 }
 
 type simFetchResponse struct {
@@ -236,7 +239,11 @@ func (r *simFetchResponse) encode(pe packetEncoder) error {
 			}
 		}
 		if r.ver >= 11 {
-			pe.putInt32(-1)
+			if b.hasPref {
+				pe.putInt32(b.preferred)
+			} else {
+				pe.putInt32(-1)
+			}
 		}
 		raw := b.raw
 		if raw == nil {
@@ -362,7 +369,12 @@ func (c *simCluster) handleFetch(b *simBroker, r *FetchRequest) (encoderWithHead
 			continue
 		case plan.Kind == "err":
 			fb.err = KError(plan.Code)
-		case pt.leader != b.idx:
+		case pt.leader == b.idx && pt.follower > 0 && pt.follower != b.idx && r.Version >= 11 && r.RackID != "":
+			// follower fetching: the leader answers a rack-aware consumer with no records and the replica to read from
+			fb.hasPref, fb.preferred = true, c.idOf(pt.follower)
+			ev["kind"] = "preferred"
+			ev["to"] = int(fb.preferred)
+		case pt.leader != b.idx && !(pt.follower == b.idx && r.Version >= 11):
 			fb.err = ErrNotLeaderForPartition
 			ev["kind"] = "notleader"
 		case blk.fetchOffset < pt.logStart || blk.fetchOffset > pt.logEnd():
